@@ -228,6 +228,12 @@ class FunctionDecoratorManager(DecoratorManager):
         def on_func_var_deleted():
             if self.status is DecoratorManagerStatus.RUNNING:
                 self.hass.async_create_task(self.stop())
+            elif self.status is DecoratorManagerStatus.VALIDATED:
+                # not started yet (eg, redefined while its file is still loading): it must never start
+                global_ctx = self.eval_func.global_ctx
+                global_ctx.dms.discard(self)
+                global_ctx.dms_delay_start.discard(self)
+                self.update_status(DecoratorManagerStatus.STOPPED)
 
         weakref.finalize(eval_func_var, on_func_var_deleted)
 
